@@ -33,6 +33,7 @@ import (
 	djson "github.com/vimeo/dials/decoders/json"
 	dyaml "github.com/vimeo/dials/decoders/yaml"
 	"github.com/vimeo/dials/sources/file"
+	"github.com/vimeo/dials/sourcewrap"
 	"pgregory.net/rapid"
 
 	"verifharness/internal/vrt"
@@ -196,11 +197,11 @@ func c17Decoder(dec string) dials.Decoder {
 
 // C17Op is one file operation.
 type C17Op struct {
-	Mech    string `json:"mech"`              // inplace | rename | delrec | swap (k8s layout) | retarget (link layout)
+	Mech    string `json:"mech"`              // inplace | rename | delrec | swap (k8s layout) | retarget (link layout) | rmdir (remove the watched directory with everything in it, wait gap_ms, build the layout again with this operation's content)
 	Content string `json:"content"`           // new | same | bad | restore (bytes of the last valid content) | revert (bytes of the valid content before the last one)
 	Doc     C17Doc `json:"doc"`               // when content == new
 	Bad     int    `json:"bad,omitempty"`     // malformed template, when content == bad
-	GapMS   int    `json:"gap_ms,omitempty"`  // delrec: pause between delete and recreate
+	GapMS   int    `json:"gap_ms,omitempty"`  // delrec: pause between delete and recreate (0/1/30); rmdir: time the directory stays away (0/60/150)
 	Cleanup bool   `json:"cleanup,omitempty"` // swap: remove the previous timestamped directory afterwards (as the Kubernetes AtomicWriter does); retarget: remove the previous target
 	Sub     bool   `json:"sub,omitempty"`     // retarget: the new target lives in a new subdirectory (otherwise next to the link)
 	Settle  bool   `json:"settle,omitempty"`  // content == new only: wait until the view shows this document before going on
@@ -230,7 +231,17 @@ type C17Setup struct {
 	Layout  string `json:"layout"`  // direct | k8s | link (the watched path is a plain symlink to the regular file)
 	Link    string `json:"link"`    // k8s: name of the directory symlink ("..data" as Kubernetes names it, "..dir" as dials' own test names it); link: where the first target lives, "same" directory or "sub" directory
 	Initial C17Doc `json:"initial"`
+	// Install: "" / "direct": the WatchingSource is given to Config;
+	// "blank-short": Config gets a sourcewrap.Blank, then Blank.SetSource(file
+	// source) with a context of its own that is cancelled as soon as SetSource
+	// has returned; "blank-long": the same with a context that outlives the
+	// Dials context (cancelled only after the release checks).
+	Install string `json:"install,omitempty"`
+	// PollMS > 0: file.WithPollInterval(PollMS ms), the fallback poll.
+	PollMS int `json:"poll_ms,omitempty"`
 }
+
+func (s C17Setup) blank() bool { return s.Install == "blank-short" || s.Install == "blank-long" }
 
 // C17Case is a history of file operations.
 type C17Case struct {
@@ -266,6 +277,14 @@ func (s C17Setup) validate() error {
 	if s.Decoder != "json" && s.Decoder != "yaml" {
 		return fmt.Errorf("decoder %q", s.Decoder)
 	}
+	switch s.Install {
+	case "", "direct", "blank-short", "blank-long":
+	default:
+		return fmt.Errorf("install %q", s.Install)
+	}
+	if s.PollMS != 0 && (s.PollMS < 20 || s.PollMS > 50) {
+		return fmt.Errorf("poll interval %d ms", s.PollMS)
+	}
 	switch s.Layout {
 	case "direct":
 	case "k8s":
@@ -286,6 +305,7 @@ func c17ValidOps(s C17Setup, ops []C17Op, counters map[int]bool, extraPause map[
 	for i, o := range ops {
 		switch o.Mech {
 		case "inplace", "rename", "delrec":
+		case "rmdir":
 		case "swap":
 			if s.Layout != "k8s" {
 				return fmt.Errorf("op %d: swap outside the k8s layout", i)
@@ -323,7 +343,11 @@ func c17ValidOps(s C17Setup, ops []C17Op, counters map[int]bool, extraPause map[
 		if !c17Pauses[o.PauseMS] && !extraPause[o.PauseMS] {
 			return fmt.Errorf("op %d: pause %d", i, o.PauseMS)
 		}
-		if !c17Pauses[o.GapMS] {
+		if o.Mech == "rmdir" {
+			if o.GapMS != 0 && o.GapMS != 60 && o.GapMS != 150 {
+				return fmt.Errorf("op %d: rmdir gap %d", i, o.GapMS)
+			}
+		} else if !c17Pauses[o.GapMS] {
 			return fmt.Errorf("op %d: gap %d", i, o.GapMS)
 		}
 	}
@@ -350,6 +374,8 @@ func genC17Setup(t *rapid.T) C17Setup {
 		Decoder: rapid.SampledFrom([]string{"json", "yaml"}).Draw(t, "decoder"),
 		Layout:  rapid.SampledFrom([]string{"direct", "k8s", "k8s", "link"}).Draw(t, "layout"),
 		Initial: genC17Doc(t, 1),
+		Install: rapid.SampledFrom([]string{"direct", "direct", "direct", "blank-short", "blank-long"}).Draw(t, "install"),
+		PollMS:  rapid.SampledFrom([]int{0, 0, 0, 0, 0, 0, 25, 40}).Draw(t, "poll_ms"),
 	}
 	switch s.Layout {
 	case "k8s":
@@ -364,7 +390,16 @@ func genC17Pause(t *rapid.T) int {
 	return rapid.SampledFrom([]int{0, 0, 0, 1, 1, 30}).Draw(t, "pause")
 }
 
-func genC17Mech(t *rapid.T, layout string, atomicOnly bool) string {
+func genC17Mech(t *rapid.T, s C17Setup, atomicOnly, rmdirOK bool) string {
+	layout := s.Layout
+	if rmdirOK && !atomicOnly {
+		// removing the whole directory: common when the fallback poll is on
+		// (the only thing that can notice the new directory), rare otherwise
+		// (nothing is promised then, only the release checks apply)
+		if die := rapid.IntRange(0, 59).Draw(t, "rmdir"); (s.PollMS > 0 && die >= 48) || (s.PollMS == 0 && die == 37) {
+			return "rmdir"
+		}
+	}
 	switch {
 	case layout == "k8s" && atomicOnly:
 		return rapid.SampledFrom([]string{"swap", "swap", "rename"}).Draw(t, "mech")
@@ -381,8 +416,8 @@ func genC17Mech(t *rapid.T, layout string, atomicOnly bool) string {
 }
 
 // genC17Op draws one operation; content is "" for a free choice.
-func genC17Op(t *rapid.T, s C17Setup, counter int, content string, atomicOnly, noRevert bool) C17Op {
-	o := C17Op{Mech: genC17Mech(t, s.Layout, atomicOnly), PauseMS: genC17Pause(t)}
+func genC17Op(t *rapid.T, s C17Setup, counter int, content string, atomicOnly, noRevert, rmdirOK bool) C17Op {
+	o := C17Op{Mech: genC17Mech(t, s, atomicOnly, rmdirOK), PauseMS: genC17Pause(t)}
 	if content == "" {
 		switch k := rapid.IntRange(0, 19).Draw(t, "content"); {
 		case k < 10:
@@ -407,6 +442,9 @@ func genC17Op(t *rapid.T, s C17Setup, counter int, content string, atomicOnly, n
 	}
 	if o.Mech == "delrec" {
 		o.GapMS = genC17Pause(t)
+	}
+	if o.Mech == "rmdir" {
+		o.GapMS = rapid.SampledFrom([]int{60, 60, 150, 0}).Draw(t, "rmdir_gap")
 	}
 	if o.moves() {
 		o.Cleanup = rapid.Bool().Draw(t, "cleanup")
@@ -476,7 +514,7 @@ func genC17Ops(t *rapid.T, s C17Setup, lo, hi int, final string, noRevert bool) 
 		if i == n-1 {
 			content = final
 		}
-		ops[i] = genC17Op(t, s, i+2, content, false, noRevert)
+		ops[i] = genC17Op(t, s, i+2, content, false, noRevert, true)
 	}
 	c17AvoidKnown(s, c17Ptrs(ops))
 	return ops
@@ -507,6 +545,11 @@ func genC17Converge(t *rapid.T) C17Case {
 	// range ends would otherwise multiply the fraction)
 	isBurst := rapid.IntRange(0, 1<<30).Draw(t, "burst")%16 == 11
 	k := rapid.IntRange(1, 3).Draw(t, "burst_ops")
+	for _, o := range ops {
+		if o.Mech == "rmdir" {
+			isBurst = false // the watches are gone, there is no queue to flood
+		}
+	}
 	if isBurst {
 		if k > len(ops) {
 			k = len(ops)
@@ -597,40 +640,47 @@ func c17NewWorld(s C17Setup) *c17World {
 	root, err := os.MkdirTemp("", "verif-c17-")
 	c17Must(err)
 	w := &c17World{c17Model: c17NewModel(s), s: s, root: root}
+	w.visible = filepath.Join(root, "cfg."+s.Decoder)
+	w.build(w.cur.bytes)
+	return w
+}
+
+// build lays the files out in the (empty) root directory with content b.
+func (w *c17World) build(b []byte) {
+	s, root := w.s, w.root
 	fname := "cfg." + s.Decoder
-	w.visible = filepath.Join(root, fname)
-	b := w.cur.bytes
 	if s.Layout == "direct" {
 		w.real = w.visible
 		c17Must(os.WriteFile(w.real, b, 0o644))
-		return w
+		return
 	}
+	w.tsN++
 	if s.Layout == "link" {
-		// root/cfg.json -> real-1.json   or   root/cfg.json -> d1/real.json
-		w.tsN = 1
-		rel := "real-1." + s.Decoder
+		// root/cfg.json -> real-N.json   or   root/cfg.json -> dN/real.json
+		rel := fmt.Sprintf("real-%d.%s", w.tsN, s.Decoder)
+		w.realSub = false
 		if s.Link == "sub" {
-			c17Must(os.Mkdir(filepath.Join(root, "d1"), 0o755))
-			rel = filepath.Join("d1", "real."+s.Decoder)
+			d := fmt.Sprintf("d%d", w.tsN)
+			c17Must(os.Mkdir(filepath.Join(root, d), 0o755))
+			rel = filepath.Join(d, "real."+s.Decoder)
 			w.realSub = true
 		}
 		w.real = filepath.Join(root, rel)
 		c17Must(os.WriteFile(w.real, b, 0o644))
 		c17Must(os.Symlink(rel, w.visible))
-		return w
+		return
 	}
 	// Kubernetes AtomicWriter layout:
-	//   root/..ts-1/cfg.json      regular file
-	//   root/<link> -> ..ts-1     directory symlink
+	//   root/..ts-N/cfg.json      regular file
+	//   root/<link> -> ..ts-N     directory symlink
 	//   root/cfg.json -> <link>/cfg.json
-	w.tsN = 1
-	w.tsDir = filepath.Join(root, "..ts-1")
+	name := fmt.Sprintf("..ts-%d", w.tsN)
+	w.tsDir = filepath.Join(root, name)
 	c17Must(os.Mkdir(w.tsDir, 0o755))
 	w.real = filepath.Join(w.tsDir, fname)
 	c17Must(os.WriteFile(w.real, b, 0o644))
-	c17Must(os.Symlink("..ts-1", filepath.Join(root, s.Link)))
+	c17Must(os.Symlink(name, filepath.Join(root, s.Link)))
 	c17Must(os.Symlink(filepath.Join(s.Link, fname), w.visible))
-	return w
 }
 
 func (w *c17World) close() { _ = os.RemoveAll(w.root) }
@@ -640,6 +690,12 @@ func (w *c17World) close() { _ = os.RemoveAll(w.root) }
 func (w *c17World) apply(o C17Op) (transientEmpty bool) {
 	b := w.step(o).bytes
 	switch o.Mech {
+	case "rmdir":
+		c17Must(os.RemoveAll(w.root))
+		time.Sleep(time.Duration(o.GapMS) * time.Millisecond)
+		c17Must(os.Mkdir(w.root, 0o700))
+		w.build(b)
+		transientEmpty = true
 	case "inplace":
 		f, err := os.OpenFile(w.real, os.O_WRONLY|os.O_TRUNC, 0)
 		c17Must(err)
@@ -705,10 +761,12 @@ type c17ErrRec struct {
 }
 
 type c17Obs struct {
-	mu   sync.Mutex
-	errs []c17ErrRec
-	news int
-	logs []string
+	mu     sync.Mutex
+	errs   []c17ErrRec // the first few, for messages
+	nerrs  int
+	decOld map[c17Config]bool // configs that were installed when a decoder error was delivered
+	news   int
+	logs   []string
 }
 
 func (o *c17Obs) Printf(format string, a ...interface{}) {
@@ -729,7 +787,16 @@ func (o *c17Obs) onErr(_ context.Context, err error, oldC, _ *c17Config) {
 		rec.old = &c
 	}
 	o.mu.Lock()
-	o.errs = append(o.errs, rec)
+	o.nerrs++
+	if len(o.errs) < 8 {
+		o.errs = append(o.errs, rec)
+	}
+	if rec.decoder && rec.old != nil {
+		if o.decOld == nil {
+			o.decOld = map[c17Config]bool{}
+		}
+		o.decOld[*rec.old] = true
+	}
 	o.mu.Unlock()
 }
 
@@ -744,19 +811,14 @@ func (o *c17Obs) onNew(_ context.Context, _, _ *c17Config) {
 func (o *c17Obs) decoderErrWhile(c c17Config) bool {
 	o.mu.Lock()
 	defer o.mu.Unlock()
-	for _, e := range o.errs {
-		if e.decoder && e.old != nil && *e.old == c {
-			return true
-		}
-	}
-	return false
+	return o.decOld[c]
 }
 
 func (o *c17Obs) summary() string {
 	o.mu.Lock()
 	defer o.mu.Unlock()
 	var b strings.Builder
-	fmt.Fprintf(&b, "new-config callbacks=%d, errors delivered=%d", o.news, len(o.errs))
+	fmt.Fprintf(&b, "new-config callbacks=%d, errors delivered=%d", o.news, o.nerrs)
 	for i, e := range o.errs {
 		if i >= 6 {
 			b.WriteString(" ...")
@@ -994,6 +1056,25 @@ type c17Run struct {
 	gate    *c17Gate
 	reload  chan os.Signal
 	baseFDs map[string]bool
+	// blank-long install: cancels the context SetSource was called with
+	setCancel context.CancelFunc
+	// blind: the watched directory was removed while no fallback poll is
+	// configured; the library promises nothing about the view from then on
+	blind bool
+	rmdir bool // some operation removed the watched directory
+}
+
+// applyOp performs an operation and keeps track of what can still be
+// asserted afterwards.
+func (r *c17Run) applyOp(o C17Op) bool {
+	if o.Mech == "rmdir" {
+		r.rmdir = true
+		if r.w.s.PollMS == 0 {
+			r.blind = true
+			r.label("rmdir-nopoll")
+		}
+	}
+	return r.w.apply(o)
 }
 
 func (r *c17Run) label(l string) {
@@ -1068,6 +1149,10 @@ func (r *c17Run) beginBurst() {
 	skip := func(why string) {
 		r.gate.open()
 		r.label("overflow-skipped:" + why)
+	}
+	if r.rmdir {
+		skip("rmdir") // the watches died with the directory: no queue to flood
+		return
 	}
 	b, err := os.ReadFile("/proc/sys/fs/inotify/max_queued_events")
 	qlen, convErr := strconv.Atoi(strings.TrimSpace(string(b)))
@@ -1158,6 +1243,9 @@ func c17Start(s C17Setup, gated bool) (*c17Run, *vrt.Verdict) {
 		r.reload = make(chan os.Signal, 1)
 		dec, opts = r.gate, append(opts, file.WithSignalChannel(r.reload))
 	}
+	if s.PollMS > 0 {
+		opts = append(opts, file.WithPollInterval(time.Duration(s.PollMS)*time.Millisecond))
+	}
 	ws, err := file.NewWatchingSource(r.w.visible, dec, opts...)
 	if err != nil {
 		r.w.close()
@@ -1168,16 +1256,37 @@ func c17Start(s C17Setup, gated bool) (*c17Run, *vrt.Verdict) {
 	ctx, cancel := context.WithCancel(context.Background())
 	r.cancel = cancel
 	def := c17Defaults()
-	d, err := dials.Params[c17Config]{OnWatchedError: r.obs.onErr, OnNewConfig: r.obs.onNew}.Config(ctx, &def, ws)
+	params := dials.Params[c17Config]{OnWatchedError: r.obs.onErr, OnNewConfig: r.obs.onNew}
+	var d *dials.Dials[c17Config]
+	if s.blank() {
+		// the way ez installs the config file: Config with a Blank, then the
+		// file source is set with a context of the caller's choosing. The
+		// watcher must live exactly as long as the context given to Config.
+		blank := &sourcewrap.Blank{}
+		if d, err = params.Config(ctx, &def, blank); err == nil {
+			setCtx, setCancel := context.WithCancel(context.Background())
+			err = blank.SetSource(setCtx, ws)
+			if s.Install == "blank-short" {
+				setCancel()
+			} else {
+				r.setCancel = setCancel
+			}
+		}
+	} else {
+		d, err = params.Config(ctx, &def, ws)
+	}
 	if err != nil {
 		cancel()
+		if r.setCancel != nil {
+			r.setCancel()
+		}
 		r.w.close()
 		if errors.Is(err, syscall.EMFILE) || errors.Is(err, syscall.ENOSPC) || errors.Is(err, syscall.ENFILE) ||
 			strings.Contains(err.Error(), "too many open files") || strings.Contains(err.Error(), "no space left") {
 			v := vrt.Discardf("environment: inotify limit reached")
 			return nil, &v
 		}
-		v := vrt.Violationf("Config on a valid initial file failed: %v", err)
+		v := vrt.Violationf("Config / SetSource on a valid initial file failed: %v", err)
 		return nil, &v
 	}
 	r.d = d
@@ -1195,6 +1304,9 @@ func (r *c17Run) finish() {
 		r.gate.open()
 	}
 	r.cancel()
+	if r.setCancel != nil {
+		r.setCancel()
+	}
 	r.w.close()
 }
 
@@ -1230,7 +1342,7 @@ func (r *c17Run) awaitView(want c17Config, what string, ops []C17Op) *vrt.Verdic
 // settleOp implements the settle flag of operation i (already applied): the
 // file has stopped changing, so the view must come to show its document.
 func (r *c17Run) settleOp(ops []C17Op, i int) *vrt.Verdict {
-	if !ops[i].Settle {
+	if !ops[i].Settle || r.blind {
 		return nil
 	}
 	r.label("settle")
@@ -1320,6 +1432,15 @@ func (r *c17Run) classify(ops []C17Op) string {
 // release cancels the context and checks that the watcher lets go of its
 // goroutines and inotify descriptors.
 func (r *c17Run) release() *vrt.Verdict {
+	v := r.releaseChecks()
+	if r.setCancel != nil {
+		// blank-long: the SetSource context ends only now
+		r.setCancel()
+	}
+	return v
+}
+
+func (r *c17Run) releaseChecks() *vrt.Verdict {
 	if r.gate != nil {
 		r.gate.open()
 	}
@@ -1432,6 +1553,16 @@ func c17OpLabels(s C17Setup, ops []C17Op) (bool, []string) {
 	if s.Layout != "direct" {
 		labels = append(labels, "link="+s.Link)
 	}
+	if s.blank() {
+		labels = append(labels, "install="+s.Install)
+	} else {
+		labels = append(labels, "install=direct")
+	}
+	if s.PollMS > 0 {
+		labels = append(labels, "poll=on")
+	} else {
+		labels = append(labels, "poll=off")
+	}
 	for i, o := range ops {
 		kinds[o.kind()] = true
 		if i < len(ops)-1 && o.PauseMS == 0 {
@@ -1525,6 +1656,9 @@ func runC17Converge(c C17Case) vrt.Verdict {
 			// until the watcher has delivered it, so that "the last good
 			// config" is unambiguous.
 			lastGood = r.w.cur.cfg
+			if r.blind {
+				return nil
+			}
 			return r.awaitView(lastGood, "before the trailing invalid content", c.Ops)
 		}
 		if settleAfter == -1 {
@@ -1537,7 +1671,7 @@ func runC17Converge(c C17Case) vrt.Verdict {
 			if i == burstStart {
 				r.beginBurst()
 			}
-			te := r.w.apply(o)
+			te := r.applyOp(o)
 			if !finalValid && i > settleAfter && te {
 				tailEmpty = true
 			}
@@ -1563,6 +1697,18 @@ func runC17Converge(c C17Case) vrt.Verdict {
 			panic(fmt.Sprintf("harness model out of sync with the disk: %q vs %q (%v)", onDisk, r.w.cur.bytes, err))
 		}
 
+		if r.blind {
+			// The watched directory was removed and no fallback poll is
+			// configured: the library documents that it does not follow the
+			// directory (TODO in watchLoop), so nothing is asserted about the
+			// view; the watcher must still be released on cancel.
+			v = r.release()
+			r.w.close()
+			if v != nil {
+				return *v
+			}
+			return vrt.OK(nt, r.labels...)
+		}
 		if finalValid {
 			switch lc := c.Ops[len(c.Ops)-1].Content; lc {
 			case "new":
@@ -1650,7 +1796,9 @@ func TestC17Converge(t *testing.T) {
 		ID: "C17", Name: "converge",
 		Rule: "a real temp directory holds a JSON or YAML config file, direct, in the Kubernetes AtomicWriter layout (visible symlink -> <link>/file, <link> -> ..ts-N, link named ..data or ..dir) " +
 			"or behind a plain symlink (target next to the link or in a subdirectory; retarget = new target file, new symlink renamed over the visible one); " +
-			"a real file.WatchingSource (no poll interval) feeds dials.Config; 1..12 operations {in-place truncate+write, temp+rename-over, ..ts-N/<link> swap or symlink retarget with or without removal of the old directory/target, delete+recreate} " +
+			"a real file.WatchingSource, without the fallback poll or (1 case in 4) WithPollInterval(25 or 40 ms), is given to dials.Config directly or (2 in 5) installed the way ez does it: Config with a sourcewrap.Blank, then Blank.SetSource(file source) " +
+			"with a context of its own that is cancelled as soon as SetSource has returned (blank-short) or only after the release checks (blank-long) - the watcher must live exactly as long as the context given to Config; " +
+			"1..12 operations {remove the whole watched directory, keep it away for 0/60/150 ms, build the layout again with new content (rmdir), in-place truncate+write, temp+rename-over, ..ts-N/<link> swap or symlink retarget with or without removal of the old directory/target, delete+recreate} " +
 			"each writing new valid content (unique counter), identical bytes, malformed content, the last valid content again (restore) or the valid content before that (revert), with pauses of 0/1/30 ms from the case " +
 			"(a new-content operation may carry a settle flag: wait for the view to show it before going on); final content valid, identical to the previous, restored, reverted or invalid. " +
 			"Oracle by construction: View() must become defaults overlaid with the fields of the final document; when the final content is invalid the harness first waits for the last valid content to be installed " +
@@ -1660,6 +1808,8 @@ func TestC17Converge(t *testing.T) {
 			"parks the watcher inside a decode (gating decoder around the real one, re-read triggered through WithSignalChannel), creates and removes a directory in the watched directory until the kernel queue stops growing " +
 			"(fs.inotify.max_queued_events read at run time; skipped with a label when unreadable or above 131072), applies the operations (their notifications are dropped, only the overflow marker remains) and opens the gate; " +
 			"the same oracle applies: the watcher must treat the overflow as 'anything may have changed' and re-read. A precondition that does not come true only skips the burst (label overflow-skipped:*), it never fails the case. " +
+			"After an rmdir the convergence oracle applies only when the fallback poll is on (only the poll can notice the new directory; the poll must keep running while the file is missing); without it the library promises nothing " +
+			"(watchLoop has a TODO for a vanished parent directory), so from the rmdir on nothing is asserted about the view (label rmdir-nopoll) and only the release checks apply; no overflow burst in histories with an rmdir. " +
 			"Every case ends with cancel: WG.Wait() returns, no goroutine with a sources/file or fsnotify frame, inotify descriptors back to the count before Config. " +
 			"non-trivial = at least 3 operations of at least 2 kinds with at least one zero pause; distinct = distinct histories",
 		Assumptions: []string{
@@ -1669,6 +1819,8 @@ func TestC17Converge(t *testing.T) {
 			"the Kubernetes swap is modelled as mkdir ..ts-N, write file, symlink <link>_tmp, rename over <link>, optionally RemoveAll of the previous directory; operations on the content act on the regular file behind the symlinks",
 			"the plain-symlink layout is an extension of the property's list (an atomic rename-over of the watched path itself)",
 			"inotify is available; hitting the per-user inotify instance limit discards the case",
+			"with the fallback poll on, a view that still differs at the 10 s deadline while the watch loop sits in its select in three dumps is a violation although a later tick could in principle still change it: some 250 ticks have passed by then",
+			"WithPollInterval is documented as a fallback ticker that triggers polling for changes: every tick re-reads the path, whatever happened to the watches",
 			"overflow burst: alternating mkdir/rmdir events of one name are not coalesced by inotify; a queue that holds at least max_queued_events*16 bytes and does not grow over 512 further events is full (label overflow-seen); fsnotify reports the marker as an error on Watcher.Errors",
 		},
 		Gen: genC17Converge, Run: runC17Converge,
@@ -1695,17 +1847,17 @@ func genC17Ident(t *rapid.T) C17IdentCase {
 		if i == np-1 {
 			content = "new"
 		}
-		c.Prefix = append(c.Prefix, genC17Op(t, s, i+2, content, false, false))
+		c.Prefix = append(c.Prefix, genC17Op(t, s, i+2, content, false, false, false))
 	}
 	nr := rapid.IntRange(1, 3).Draw(t, "nrepl")
 	for i := 0; i < nr; i++ {
-		o := genC17Op(t, s, 0, "same", true, true)
+		o := genC17Op(t, s, 0, "same", true, true, false)
 		if i == nr-1 {
 			o.PauseMS = rapid.SampledFrom([]int{0, 30, 30, 100, 100}).Draw(t, "gap")
 		}
 		c.Repl = append(c.Repl, o)
 	}
-	c.Change = genC17Op(t, s, 100, "new", true, true)
+	c.Change = genC17Op(t, s, 100, "new", true, true, false)
 	gap := c.Repl[nr-1].PauseMS
 	c17AvoidKnown(s, append(c17Ptrs(c.Prefix, c.Repl), &c.Change))
 	if gap == 100 {
@@ -1734,6 +1886,11 @@ func runC17Ident(c C17IdentCase) vrt.Verdict {
 	if n := len(c.Prefix); n > 0 && c.Prefix[n-1].Content != "new" {
 		return vrt.Discardf("malformed case: prefix must end with valid content")
 	}
+	for _, o := range c.Prefix {
+		if o.Mech == "rmdir" {
+			return vrt.Discardf("malformed case: rmdir in the prefix")
+		}
+	}
 
 	if err := c17ValidOps(c.C17Setup, c.Repl, counters, map[int]bool{100: true}); err != nil {
 		return vrt.Discardf("malformed case: repl %v", err)
@@ -1757,7 +1914,7 @@ func runC17Ident(c C17IdentCase) vrt.Verdict {
 		all := append(append(append([]C17Op{}, c.Prefix...), c.Repl...), c.Change)
 		_, r.labels = c17OpLabels(c.C17Setup, all)
 		for i, o := range c.Prefix {
-			r.w.apply(o)
+			r.applyOp(o)
 			if v := r.settleOp(c.Prefix, i); v != nil {
 				r.finish()
 				return *v
@@ -1774,7 +1931,7 @@ func runC17Ident(c C17IdentCase) vrt.Verdict {
 		}
 		cfg0, s0 := r.d.ViewVersion()
 		for _, o := range c.Repl {
-			r.w.apply(o)
+			r.applyOp(o)
 			c17Sleep(o.PauseMS)
 		}
 		// Invariant, sound at any instant: no new version between the
@@ -1816,7 +1973,7 @@ func runC17Ident(c C17IdentCase) vrt.Verdict {
 func TestC17Identical(t *testing.T) {
 	vrt.Check(t, vrt.Prop[C17IdentCase]{
 		ID: "C17", Name: "identical",
-		Rule: "same world as C17/converge; a prefix of 0..3 arbitrary operations ending in valid content, wait until the view shows it (quiescence: contents carry unique counters, so the watcher has read the final bytes and every later read sees the same bytes), " +
+		Rule: "same world as C17/converge (direct or Blank install, with or without the fallback poll; no rmdir); a prefix of 0..3 arbitrary operations ending in valid content, wait until the view shows it (quiescence: contents carry unique counters, so the watcher has read the final bytes and every later read sees the same bytes), " +
 			"take (cfg, serial) = ViewVersion(); 1..3 atomic replacements (temp+rename-over, ..ts-N/<link> swap, or retarget of a plain symlink) with identical bytes, pauses 0/1/30 ms, then a gap of 0/30/100 ms; " +
 			"oracle 1: just before the next step ViewVersion() must return a serial == the snapshot (sound at any instant); " +
 			"oracle 2: one atomic replacement with new content follows as a barrier (events are handled in order, so when the new content is visible the replacements' events have been handled); the serial number must have advanced by exactly 1 " +
@@ -1866,7 +2023,7 @@ func runC17Release(c C17ReleaseCase) vrt.Verdict {
 		}
 		_, r.labels = c17OpLabels(c.C17Setup, c.Ops)
 		for i, o := range c.Ops[:c.CancelAt] {
-			r.w.apply(o)
+			r.applyOp(o)
 			if v := r.settleOp(c.Ops, i); v != nil {
 				r.finish()
 				return *v
@@ -1877,7 +2034,7 @@ func runC17Release(c C17ReleaseCase) vrt.Verdict {
 		r.cancel()
 		// the file keeps changing after cancel
 		for _, o := range c.Ops[c.CancelAt:] {
-			r.w.apply(o)
+			r.applyOp(o)
 			c17Sleep(o.PauseMS)
 		}
 		v = r.release()
@@ -1899,7 +2056,7 @@ func runC17Release(c C17ReleaseCase) vrt.Verdict {
 func TestC17Release(t *testing.T) {
 	vrt.Check(t, vrt.Prop[C17ReleaseCase]{
 		ID: "C17", Name: "release",
-		Rule: "same world as C17/converge with 1..8 operations; the context is cancelled after cancel_at operations (after a further 0/1/30 ms), without waiting for convergence, and the remaining operations run after the cancel; " +
+		Rule: "same world as C17/converge (direct or Blank install - with blank-long the context SetSource was called with is still alive when the Dials context is cancelled -, with or without the fallback poll, rmdir included) with 1..8 operations; the context is cancelled after cancel_at operations (after a further 0/1/30 ms), without waiting for convergence, and the remaining operations run after the cancel; " +
 			"oracle: WG.Wait() returns, then (polled) no goroutine with a sources/file or fsnotify frame remains and the number of anon_inode:inotify descriptors in /proc/self/fd is back to the count taken before Config; " +
 			"at the 10 s deadline a violation needs the leftover goroutines parked in three dumps 300 ms apart, otherwise inconclusive. " +
 			"non-trivial = at least 2 operations and the cancel follows an operation with no pause at all (watcher busy)",
